@@ -78,7 +78,7 @@ class PermFit(FrameFit):
 
 
 META = dict(
-    level="proof", assumptions=["A1", "A2", "A6", "A7", "A8", "A9"],
+    level="proof", lean_files=["lemmas/Sums.lean"], assumptions=["A1", "A2", "A6", "A7", "A8", "A9"],
     trusted=["the same assumed contracts as C02 (opaque in-repo steps, scikit-learn calls); RNG provenance tags: numpy.random.* = Global, "
              "RandomState(seed) = Seeded, RandomState() = Entropy"],
     not_applicable=["PiecewiseRegressor/Classifier.fit (bucket bookkeeping, borrowed examples drawn from random_state), DecisionTreeLogisticRegression.fit, "
